@@ -93,8 +93,15 @@ class _Parts:
         delay = None if desc["delay"] is None else desc["delay"] * dt
         kind = desc["kind"]
         self.conns, self.neurons = {}, {}
-        mk = lambda ck, nin, nout: fac.make_connection(ck, dt, syn=desc["syn"], B=B, delay=delay, bias=desc["bias"],
-                                                       nin=nin, nout=nout)
+        grown = bool(desc.get("grown")) and delay is not None
+
+        def mk(ck, nin, nout):
+            c = fac.make_connection(ck, dt, syn=desc["syn"], B=B, delay=(0.0 if grown else delay), bias=desc["bias"], nin=nin, nout=nout)
+            if grown:
+                # built with zero delay (single-slot histories) and given its delay range afterwards, through the documented setter
+                c.synapse.delay = delay
+            return c
+
         if kind == "serial":
             c = mk(desc["conn"], 4, 3)
             self.conns["serial"] = c
